@@ -26,11 +26,14 @@ def integrity_forms(ctx, algo, data, other_data):
     wrong = ctx.sri(algo, other_data)
     gb = ctx.sri(b, data)
     gc = ctx.sri(c, data)
+    wb = ctx.sri(b, other_data)
     return [
         ("none", None, "ok"),
         ("correct", good, "ok"),
         ("wrong", wrong, "reject"),
         ("other-algorithm-correct", gb, "either"),
+        ("other-algorithm-wrong", wb, "reject"),
+        ("multi-without-writer-algorithm-wrong", wb + " " + gc, "reject"),
         ("multi-containing-writer-algorithm", good + " " + gb, "either"),
         ("multi-without-writer-algorithm", gb + " " + gc, "either"),
         ("multi-with-wrong-writer-hash", wrong + " " + gb, "reject"),
@@ -155,7 +158,7 @@ def worker(ctx, job):
 def main(tier, seed=0):
     return run_check(PROP, tier, make_jobs(tier), worker, level="exploration",
                      rule="case = (flavour, side, keyed/by-address writer, algorithm, data size, chunking, declared size [none, n, n-1, n+1, 0, 2n+3], declared integrity "
-                          "[7 forms], prior state of the key [absent/present/removed]); distinct tuples counted; every case commits through the real API and compares "
+                          "[9 forms], prior state of the key [absent/present/removed]); distinct tuples counted; every case commits through the real API and compares "
                           "the key's mapping before/after through sync and async lookups",
                      technique="bounded-exhaustive input and history enumeration against the real API with a table oracle",
                      assumptions=["a correct digest under another algorithm than the writer's (alone or inside a multi-hash) may be accepted or rejected: the property text and the API "
